@@ -1,13 +1,15 @@
 """C02 — expressions group exactly as the documented precedence and associativity."""
 import itertools
 from core import num_canon, alarm, Timeout
+import pipeline
 
 ID = "C02"
-LEAN_MODULES = ["KaVerif.Props.C02", "KaVerif.Props.C02Table"]
-GEN = ["Tokens"]
+LEAN_MODULES = ["KaVerif.Props.C02", "KaVerif.Props.C02Table"] + pipeline.LEAN_MODULES
+GEN = ["Tokens", "Registry", "Units"]
 THEOREMS = ["KaVerif.C02_roundtrip", "KaVerif.C02_redundant_parens", "KaVerif.C02_min_eq_full",
             "KaVerif.C02_assign_vs_compare", "KaVerif.C02_assign_only_at_statement_start", "KaVerif.C02_kwarg",
-            "KaVerif.C02_kwarg_before_positional_rejected", "KaVerif.C02_wf_iff_parsed", "KaVerif.C02_token_table"]
+            "KaVerif.C02_kwarg_before_positional_rejected", "KaVerif.C02_wf_iff_parsed", "KaVerif.C02_token_table",
+            "KaVerif.PIPE_text_arith_min_full", "KaVerif.PIPE_text_arith_lexed"]
 RULE = ("random program trees (every operator at every operand position: + - ± * / % ^ .. sign ! comparisons(1-2) to "
         "units calls(kwargs) arrays comprehensions intervals strings instants assignment ;), depth<=6 quick / <=9 thorough, "
         "each rendered with minimal / full / random-redundant parentheses (and with backward comparison operators) and random "
@@ -719,6 +721,10 @@ def check(ctx):
     ctx.correspond("parse", parse_cases, describe=lambda i: i["text"])
     ctx.correspond("render", render_cases, describe=lambda i: i["text"])
     ctx.correspond("parse-soup", soup_cases, describe=lambda i: i["text"])
+    # the same texts through the unified pipeline model: parse errors must carry the same marker position, values the same display
+    texts = [c[2]["text"] for c in parse_cases] + [c[2]["text"] for c in soup_cases]
+    rng.shuffle(texts)
+    pipeline.run(ctx, [t for t in texts[: ctx.n(2500, 25000)] if len(t) < 3000], label="run-c02", min_modelled=0.0)
     ctx.cov["parse_cases"] = len(parse_cases)
     ctx.cov["soup_cases"] = len(soup_cases)
 
